@@ -1,0 +1,32 @@
+//go:build verif
+
+// Contracts for package main (cmd), checked by /verif (goverif). Comment-only file: it is
+// compiled only under the build tag `verif` and contains no executable code.
+//
+// Ghost effect trace: nstdout()/stdoutline(i) are the lines written to standard output, nfs()/
+// fskind(i)/fspath(i)/fsdata(i) the file-system effects, ncalls/callarg/callres/called refer to
+// calls made through a contract, exitcode() to the status passed to os.Exit.
+package main
+
+// ---------------------------------------------------------------- format (C16, C09 error path)
+
+//@ func init$2
+//@   exits [C16:format-error-exit] exitcode() == 1 && nfs() == 0
+//@   ensures [C16:format-input] ncalls("parser.FormatPacketDsl") == 1 && (dsl != "" ==> callarg("parser.FormatPacketDsl", 0, 0) == dsl)
+//@   ensures [C16:format-no-error] callres("parser.FormatPacketDsl", 0, 1) == 0
+//@   ensures [C16:format-file] file != "" ==> nfs() == 1 && fskind(0) == "writefile" && fspath(0) == file && fsdata(0) == callres("parser.FormatPacketDsl", 0, 0)
+//@   ensures [C16:format-stdout] file == "" ==> nfs() == 0 && nstdout() == 1 && stdoutline(0) == callres("parser.FormatPacketDsl", 0, 0) + "\n"
+
+// ---------------------------------------------------------------- C library export (C16)
+
+//@ func FormatPacketDslExport
+//@   ensures [C16:export-input] ncalls("parser.FormatPacketDsl") == 1 && callarg("parser.FormatPacketDsl", 0, 0) == gostring(dsl)
+//@   ensures [C16:export-ok] callres("parser.FormatPacketDsl", 0, 1) == 0 ==> cstring(result) == callres("parser.FormatPacketDsl", 0, 0)
+//@   ensures [C16:export-error] callres("parser.FormatPacketDsl", 0, 1) != 0 ==> cstring(result) == "Error:" + errmsg2(callres("parser.FormatPacketDsl", 0, 1), callres("parser.FormatPacketDsl", 0, 2))
+//@   ensures [C16:export-pure] nfs() == 0 && nstdout() == 0
+
+// ---------------------------------------------------------------- compile (C12 D8, C16)
+
+//@ func Compile
+//@   ensures [C12:D8-parse-error] callres("parser.ParseFile", 0, 2) != 0 ==> result != nil && nfs() == 0 && ncalls("parser.WriteCodeToFile") == 0
+//@   ensures [C16:compile-input] ncalls("parser.ParseFile") == 1 && callarg("parser.ParseFile", 0, 0) == input
